@@ -1,1 +1,412 @@
-fn main() {}
+//! racemon - workloads for C17 (treaps can be built concurrently on different threads without racing).
+//!
+//!   --mode sanitizer   small workload meant to run under Miri or ThreadSanitizer: threads that share no
+//!                      treap create nodes (TreapNode::new, Treap::from_item, insert_at) and split/merge
+//!                      their own treaps; every thread's results are compared with a sequential model.
+//!                      The race detector is the observer; the process prints "WORKLOAD-OK ..." at the end.
+//!   --mode reference   prints the first N priorities a fresh process draws on its main thread
+//!   --mode stress      native behavioural history checker (see below), writes the standard result file
+//!
+//! Behavioural history checker: every thread records the priority of every node it creates. A sequential
+//! calibration phase decides whether the implementation hands out priorities per thread (every thread sees
+//! the reference stream R from its start) or from one process-wide source (the concatenation is R). Under
+//! contention each thread's stream must then equal R's prefix (per-thread), or all streams together must
+//! be exactly the next segment of R with no draw lost or duplicated and each thread's draws in R's order.
+
+use common::{Engine, Json, Report};
+use rlib_treap::{Treap, TreapItem, TreapItemSized, TreapNode};
+use std::sync::atomic::{AtomicU64, Ordering};
+use std::sync::{Arc, Barrier};
+
+#[derive(Default)]
+struct KeyItem {
+    key: u64,
+    size: usize,
+}
+impl TreapItem for KeyItem {
+    fn update(&mut self, l: Option<&Self>, r: Option<&Self>) {
+        self.size = 1 + l.map(|x| x.size).unwrap_or(0) + r.map(|x| x.size).unwrap_or(0);
+    }
+}
+impl TreapItemSized for KeyItem {
+    fn size(&self) -> usize {
+        self.size
+    }
+}
+fn item(key: u64) -> KeyItem {
+    KeyItem { key, size: 1 }
+}
+
+/// tiny deterministic generator for op choices (never rlib_rand)
+fn lcg(x: &mut u64) -> u64 {
+    *x = x.wrapping_mul(0x5851_F42D_4C95_7F2D).wrapping_add(0x1405_7B7E_F767_814F);
+    (*x >> 33) ^ *x
+}
+
+/// One thread's work: `creations` node creations spread over from_item / insert_at / TreapNode::new, with
+/// split / merge / remove on its own treaps. Returns (priorities of created nodes in creation order,
+/// final key sequence, model key sequence, number of treap operations).
+fn thread_work(tid: u64, creations: usize, record: bool) -> (Vec<u32>, Vec<u64>, Vec<u64>, u64) {
+    let mut st = 0x9E37_79B9 ^ (tid.wrapping_mul(0xABCD_EF12_3456_789B));
+    let mut prios: Vec<u32> = Vec::with_capacity(if record { creations } else { 0 });
+    let mut t: Treap<KeyItem> = Treap::new();
+    let mut model: Vec<u64> = Vec::new();
+    let mut ops = 0u64;
+    let mut made = 0usize;
+    let mut k = 0u64;
+    while made < creations {
+        k += 1;
+        let key = tid * 1_000_000_000 + k;
+        if model.len() >= 384 {
+            // keep the treap (and the O(n) Vec model) small: verify and start over
+            let got: Vec<u64> = t.collect().iter().map(|i| i.key).collect();
+            ops += 1;
+            if got != model {
+                return (prios, got, model, ops);
+            }
+            t = Treap::new();
+            model.clear();
+        }
+        match lcg(&mut st) % 8 {
+            0 | 1 | 2 => {
+                // bare node creation
+                let n = TreapNode::new(item(key));
+                if record {
+                    prios.push(n.priority);
+                }
+                made += 1;
+                // attach it at the end through the public root field
+                let single = Treap { root: Some(Box::new(n)) };
+                t = Treap::merge(std::mem::take(&mut t), single);
+                model.push(key);
+                ops += 1;
+            }
+            3 | 4 => {
+                let single = Treap::from_item(item(key));
+                if record {
+                    prios.push(single.root.as_ref().unwrap().priority);
+                }
+                made += 1;
+                let pos = (lcg(&mut st) as usize) % (model.len() + 1);
+                let (a, b) = std::mem::take(&mut t).split_at(pos);
+                t = Treap::merge(Treap::merge(a, single), b);
+                model.insert(pos, key);
+                ops += 3;
+            }
+            5 => {
+                // insert_at creates its node internally: the priority is observed by walking to the new element
+                let pos = (lcg(&mut st) as usize) % (model.len() + 1);
+                t.insert_at(pos, item(key));
+                model.insert(pos, key);
+                made += 1;
+                ops += 1;
+                if record {
+                    let (a, bc) = std::mem::take(&mut t).split_at(pos);
+                    let (b, c) = bc.split_at(1);
+                    prios.push(b.root.as_ref().unwrap().priority);
+                    t = Treap::merge(Treap::merge(a, b), c);
+                    ops += 4;
+                }
+            }
+            6 => {
+                if !model.is_empty() {
+                    let pos = (lcg(&mut st) as usize) % model.len();
+                    let got = t.remove_at(pos);
+                    let want = model.remove(pos);
+                    ops += 1;
+                    if got.key != want {
+                        return (prios, vec![got.key], vec![want], ops);
+                    }
+                }
+            }
+            _ => {
+                if model.len() >= 2 {
+                    // rotate
+                    let pos = 1 + (lcg(&mut st) as usize) % (model.len() - 1);
+                    let (a, b) = std::mem::take(&mut t).split_at(pos);
+                    t = Treap::merge(b, a);
+                    model.rotate_left(pos);
+                    ops += 2;
+                }
+            }
+        }
+    }
+    let got: Vec<u64> = t.collect().iter().map(|i| i.key).collect();
+    (prios, got, model, ops)
+}
+
+fn mode_sanitizer(threads: usize, creations: usize) -> i32 {
+    // staggered starts: a barrier, then each thread burns a different number of iterations first
+    let barrier = Arc::new(Barrier::new(threads));
+    let clock = Arc::new(AtomicU64::new(0)); // Relaxed stamps only: adds no happens-before edge
+    let mut handles = Vec::new();
+    for tid in 0..threads as u64 {
+        let barrier = barrier.clone();
+        let clock = clock.clone();
+        handles.push(std::thread::spawn(move || {
+            barrier.wait();
+            let stamp0 = clock.fetch_add(1, Ordering::Relaxed);
+            let (_p, got, model, ops) = thread_work(tid + 1, creations, false);
+            let stamp1 = clock.fetch_add(1, Ordering::Relaxed);
+            (got == model, ops, stamp0, stamp1, got.len())
+        }));
+    }
+    // the main thread creates nodes too, concurrently with the others
+    let (_p, got, model, ops_main) = thread_work(0, creations, false);
+    let mut ok = got == model;
+    let mut ops = ops_main;
+    let mut overlap = 0;
+    let mut stamps = Vec::new();
+    for h in handles {
+        let (good, o, s0, s1, _n) = h.join().expect("worker panicked");
+        ok &= good;
+        ops += o;
+        stamps.push((s0, s1));
+    }
+    for i in 0..stamps.len() {
+        for j in 0..stamps.len() {
+            if i != j && stamps[i].0 < stamps[j].1 && stamps[j].0 < stamps[i].1 {
+                overlap += 1;
+            }
+        }
+    }
+    if ok {
+        println!("WORKLOAD-OK threads={} creations_per_thread={} treap_ops={} overlapping_thread_pairs={}", threads + 1, creations, ops, overlap / 2);
+        0
+    } else {
+        println!("WORKLOAD-MISMATCH a thread's treap results differ from the sequential model");
+        3
+    }
+}
+
+fn draw_main(n: usize) -> Vec<u32> {
+    (0..n).map(|i| TreapNode::new(item(i as u64)).priority).collect()
+}
+
+fn mode_reference(n: usize, path: &str) {
+    // raw little-endian u32s
+    let v = draw_main(n);
+    let mut bytes = Vec::with_capacity(n * 4);
+    for p in v {
+        bytes.extend_from_slice(&p.to_le_bytes());
+    }
+    std::fs::write(path, bytes).expect("write reference stream");
+}
+
+fn load_reference(path: &str) -> Vec<u32> {
+    let b = std::fs::read(path).expect("reference file");
+    b.chunks_exact(4).map(|c| u32::from_le_bytes([c[0], c[1], c[2], c[3]])).collect()
+}
+
+#[derive(Debug, PartialEq, Clone, Copy)]
+enum SourceModel {
+    PerThread,
+    Global,
+    Unknown,
+}
+
+fn mode_stress(eng: &Engine, report: &mut Report) {
+    let a = &eng.args;
+    let threads = a.u64("workers", 8) as usize;
+    let per_thread = a.u64("creations", if a.thorough() { 3_000_000 } else { 600_000 }) as usize;
+    let rounds = a.u64("rounds", if a.thorough() { 5 } else { 2 }) as usize;
+    let r: Vec<u32> = match a.opt("reference") {
+        Some(p) => load_reference(&p),
+        None => {
+            report.inconclusive("no --reference stream given");
+            return;
+        }
+    };
+    let reference_stable = a.str("reference-stable", "yes") == "yes";
+    report.extra("reference_stream_len", r.len());
+    report.extra("reference_stream_reproducible", reference_stable);
+
+    // ---- calibration: main draws, a joined thread draws, main draws
+    let k = 64usize;
+    let m1 = draw_main(k);
+    let th = std::thread::spawn(move || draw_main(k)).join().unwrap();
+    let m2 = draw_main(k);
+    let model = if !reference_stable {
+        SourceModel::Unknown
+    } else if m1[..] == r[..k] && th[..] == r[..k] && m2[..] == r[k..2 * k] {
+        SourceModel::PerThread
+    } else if m1[..] == r[..k] && th[..] == r[k..2 * k] && m2[..] == r[2 * k..3 * k] {
+        SourceModel::Global
+    } else {
+        SourceModel::Unknown
+    };
+    report.extra("priority_source_model", format!("{:?}", model));
+    report.sample(Json::obj().set("calibration", "main draws 64, a joined thread draws 64, main draws 64").set("model_decided", format!("{:?}", model)).set("first_reference_priorities", Json::from(r.iter().take(6).map(|&x| x as u64).collect::<Vec<u64>>())));
+    let mut consumed_global = 3 * k; // positions of R already used in the global model
+
+    for round in 0..rounds {
+        report.inc("evaluations");
+        report.see("nontrivial", round as u64 * 1000 + threads as u64);
+        let barrier = Arc::new(Barrier::new(threads));
+        let clock = Arc::new(AtomicU64::new(0));
+        let mut handles = Vec::new();
+        for tid in 0..threads as u64 {
+            let barrier = barrier.clone();
+            let clock = clock.clone();
+            handles.push(std::thread::spawn(move || {
+                barrier.wait();
+                // staggered starts
+                let mut spin = 0u64;
+                for i in 0..(tid * 20_000) {
+                    spin = spin.wrapping_add(i);
+                }
+                std::hint::black_box(spin);
+                let s0 = clock.fetch_add(1, Ordering::Relaxed);
+                let (prios, got, model, ops) = thread_work(tid + 1 + 100 * round as u64, per_thread, true);
+                let s1 = clock.fetch_add(1, Ordering::Relaxed);
+                (prios, got == model, ops, s0, s1)
+            }));
+        }
+        let mut streams: Vec<Vec<u32>> = Vec::new();
+        let mut stamps = Vec::new();
+        for (tid, h) in handles.into_iter().enumerate() {
+            match h.join() {
+                Ok((prios, good, ops, s0, s1)) => {
+                    report.count("treap_ops", ops);
+                    report.count("node_creations", prios.len() as u64);
+                    if !good {
+                        report.violation(
+                            "treap_results_differ_under_concurrency",
+                            Json::obj().set("what", "a thread's treap results differ from the same operations run alone").set("thread", tid).set("round", round),
+                            vec!["--mode".into(), "stress".into()],
+                        );
+                    }
+                    streams.push(prios);
+                    stamps.push((s0, s1));
+                }
+                Err(_) => {
+                    report.violation("worker_panicked", Json::obj().set("thread", tid).set("round", round), vec!["--mode".into(), "stress".into()]);
+                }
+            }
+        }
+        let mut overlapping = 0u64;
+        for i in 0..stamps.len() {
+            for j in i + 1..stamps.len() {
+                if stamps[i].0 < stamps[j].1 && stamps[j].0 < stamps[i].1 {
+                    overlapping += 1;
+                }
+            }
+        }
+        report.count("overlapping_thread_pairs", overlapping);
+        let total: usize = streams.iter().map(|s| s.len()).sum();
+        match model {
+            SourceModel::PerThread => {
+                for (tid, s) in streams.iter().enumerate() {
+                    report.inc("streams_checked");
+                    if s.len() > r.len() {
+                        report.inconclusive("reference stream too short");
+                        continue;
+                    }
+                    if let Some(pos) = (0..s.len()).find(|&i| s[i] != r[i]) {
+                        report.violation(
+                            "priority_stream_not_sequential:per_thread",
+                            Json::obj()
+                                .set("what", "a thread's priority stream differs from the stream a sequential execution produces")
+                                .set("thread", tid)
+                                .set("round", round)
+                                .set("first_differing_draw", pos)
+                                .set("got", s[pos])
+                                .set("want", r[pos]),
+                            vec!["--mode".into(), "stress".into()],
+                        );
+                    }
+                }
+            }
+            SourceModel::Global => {
+                report.inc("streams_checked");
+                if consumed_global + total > r.len() {
+                    report.inconclusive("reference stream too short");
+                    continue;
+                }
+                let seg = &r[consumed_global..consumed_global + total];
+                // (1) multiset equality: a lost update shows as a duplicated draw and a missing one
+                let mut want: Vec<u32> = seg.to_vec();
+                let mut got: Vec<u32> = streams.iter().flatten().cloned().collect();
+                want.sort_unstable();
+                got.sort_unstable();
+                let mut dup_or_lost = 0u64;
+                if want != got {
+                    // count draws of the segment that are missing from the union
+                    let (mut i, mut j) = (0, 0);
+                    while i < want.len() && j < got.len() {
+                        if want[i] == got[j] {
+                            i += 1;
+                            j += 1;
+                        } else if want[i] < got[j] {
+                            dup_or_lost += 1;
+                            i += 1;
+                        } else {
+                            j += 1;
+                        }
+                    }
+                    dup_or_lost += (want.len() - i) as u64;
+                }
+                // (2) each thread's draws appear in R's order (greedy subsequence match)
+                let mut backwards = 0u64;
+                for s in &streams {
+                    let mut p = 0usize;
+                    for &x in s {
+                        while p < seg.len() && seg[p] != x {
+                            p += 1;
+                        }
+                        if p == seg.len() {
+                            backwards += 1;
+                            break;
+                        }
+                        p += 1;
+                    }
+                }
+                if dup_or_lost > 0 || backwards > 0 {
+                    report.violation(
+                        "priority_draws_lost_or_duplicated:global",
+                        Json::obj()
+                            .set("what", "under contention the threads' priority draws are not a partition of the sequential stream: draws were lost / duplicated, or a thread's stream is not in stream order")
+                            .set("round", round)
+                            .set("threads", threads)
+                            .set("draws", total)
+                            .set("positions_of_the_sequential_stream_never_observed", dup_or_lost)
+                            .set("threads_whose_stream_is_not_in_order", backwards),
+                        vec!["--mode".into(), "stress".into()],
+                    );
+                }
+                consumed_global += total;
+            }
+            SourceModel::Unknown => {
+                report.inc("streams_unjudged_model_unknown");
+            }
+        }
+    }
+    report.extra("workers", threads);
+    report.extra("creations_per_thread", per_thread);
+}
+
+fn main() {
+    let args: Vec<String> = std::env::args().collect();
+    let get = |k: &str, d: &str| -> String {
+        args.iter().position(|a| a == k).and_then(|i| args.get(i + 1)).cloned().unwrap_or_else(|| d.to_string())
+    };
+    let mode = get("--mode", "sanitizer");
+    match mode.as_str() {
+        "sanitizer" => {
+            let t: usize = get("--workers", "3").parse().unwrap();
+            let c: usize = get("--creations", "40").parse().unwrap();
+            std::process::exit(mode_sanitizer(t, c));
+        }
+        "reference" => {
+            mode_reference(get("--draws", "1000").parse().unwrap(), &get("--ref-out", "reference.bin"));
+        }
+        "stress" => {
+            let eng = Engine::start("racemon");
+            let mut report = Report::new();
+            report.extra("mode", "stress");
+            mode_stress(&eng, &mut report);
+            eng.finish(report);
+        }
+        m => panic!("unknown mode {}", m),
+    }
+}
